@@ -4,9 +4,9 @@ from hypothesis import strategies as st
 from vlib import ttlvref as T
 from vlib import c19_wire as W
 from vlib import c19_codec as C
-from vlib.c19_ops import (Op, reg, opt, uid_s, text_s, bytes_s, nbytes_s, masks_s, alg_s, date_s,
-                          cp_s, orbits, plain, _E, lib_cp, lib_cp_dict, lib_masks, lib_attr,
-                          lib_template, chk_val, chk_only, chk_attr, template_of, find_attrs)
+from vlib.c19_ops import (Op, reg, opt, uid_s, text_s, nbytes_s, masks_s, alg_s, cp_s, orbits,
+                          plain, _E, lib_cp, lib_cp_dict, lib_masks, lib_template, chk_val,
+                          chk_attr, template_of, find_attrs)
 
 
 # ----------------------------------------------------------------------------- create
@@ -289,7 +289,9 @@ def pie_object_plain(m):
 
 
 def _cp_clean(d):
-    return {k: plain(x) for k, x in (d or {}).items() if x is not None}
+    # the pie key_wrapping_data getter cannot tell 0 / False from "absent" (it collapses parameter
+    # sets whose values are all falsy): such members are not compared
+    return {k: plain(x) for k, x in (d or {}).items() if x is not None and plain(x)}
 
 
 def _wrap_from_pie(d):
@@ -325,7 +327,10 @@ def object_expected_pie(o):
         for k in ("eki", "mski"):
             if k in w:
                 w[k] = dict(w[k])
-                if not w[k].get("cp"):
+                cp = {f: x for f, x in (w[k].get("cp") or {}).items() if x}
+                if cp:
+                    w[k]["cp"] = cp
+                else:
                     w[k].pop("cp", None)
         o["wrap"] = w
     return o
